@@ -9,3 +9,9 @@ Theorem C04_radius : forall k, 1 <= k <= 4096 -> radius_ok k = true.
 Proof. exact radius_covers. Qed.
 Print Assumptions C04_radius.
 
+(* the KD-tree query as written asks for the exact Euclidean ball: no approximation factor (eps), no other norm (p) among the options
+   handed to query_ball_point - with eps > 0 SciPy may prune a node whose nearest corner lies exactly on the radius, which is where
+   every pure-substitution pair sits *)
+Theorem C04_ball_query_exact : gen_ball_query_exact = true.
+Proof. reflexivity. Qed.
+
